@@ -84,7 +84,7 @@ type kvState [maxUniverse]uint16
 
 type pInput struct {
 	kind  string
-	idx   int   // point ops
+	idx   int // point ops
 	val   uint16
 	match []int // prefix ops: universe indexes carrying realm||prefix, ordered as the call must report them
 	stop  int
